@@ -1,12 +1,33 @@
 #!/venv/bin/python
-"""Print the markdown table of confirmed seeded defects (from seeded/*/meta.json)."""
+"""Print the markdown table of confirmed seeded defects (from seeded/*/meta.json).
+
+usage: tools/seed_table.py [round]      round = 1 | 2 | 3 | 4 | F (reverse patches of repairs); default: all"""
 import json
+import sys
 from pathlib import Path
 rows = []
+WANT = sys.argv[1] if len(sys.argv) > 1 else None
+
+
+def round_of(name: str) -> str:
+    pid, k = name.split("-", 1)
+    if not k.rstrip("b").isdigit():
+        return "F"
+    n = int(k.rstrip("b"))
+    if n <= 3:
+        return "1"
+    if n <= 6:
+        return "2"
+    if n <= 9:
+        return "4" if pid in ("C14", "C20") else "3"
+    return "4"
+
 # first-run status of the round-1 seeds (recorded in DESIGN 7.5 at the time; the 8th exit-2 case was not noted)
 FIRST = {k: "missed" for k in ("C01-3", "C02-2", "C02-3", "C09-1", "C09-2", "C09-3")}
 FIRST.update({k: "exit 2" for k in ("C01-1", "C05-1", "C10-3", "C14-2", "C14-3", "C17-1", "C03-2")})
-for d in sorted(Path("/verif/seeded").iterdir()):
+for d in sorted(Path("/verif/seeded").iterdir(), key=lambda d: (d.name.split("-")[0], len(d.name), d.name)):
+    if WANT is not None and round_of(d.name) != WANT:
+        continue
     m = json.loads((d / "meta.json").read_text())
     cr = m.get("check_result", {})
     summ = " ".join(str(m.get("summary", "")).split())
